@@ -19,14 +19,14 @@ import (
 type eqKind struct {
 	name    string
 	redis   bool
-	build   func(c *Ctx, variant int) interface{}             // variant 0 = base parameters, >0 = one parameter changed
-	feed    func(c *Ctx, o interface{}, ops []int)             // apply a history (indices into a fixed pool)
+	build   func(c *Ctx, variant int) interface{}  // variant 0 = base parameters, >0 = one parameter changed
+	feed    func(c *Ctx, o interface{}, ops []int) // apply a history (indices into a fixed pool)
 	export  func(o interface{}) ([]byte, error)
-	imp     func(c *Ctx, doc []byte) (interface{}, error)      // fresh instance + Import (Redis: new keys)
+	imp     func(c *Ctx, doc []byte) (interface{}, error) // fresh instance + Import (Redis: new keys)
 	equals  func(a, b interface{}) (bool, error)
-	absStr  func(o interface{}) (string, error)                // canonical parameters+payload
-	eqArgs  func(o interface{}) (string, error)                // argument block of the driver line
-	mutate  func(doc map[string]interface{}, where int) bool   // where: 0 first, 1 middle, 2 last
+	absStr  func(o interface{}) (string, error)              // canonical parameters+payload
+	eqArgs  func(o interface{}) (string, error)              // argument block of the driver line
+	mutate  func(doc map[string]interface{}, where int) bool // where: 0 first, 1 middle, 2 last
 	nparams int
 }
 
@@ -253,11 +253,11 @@ func eqCuckoo(redis bool) eqKind {
 		name = "cuckoo.redis"
 	}
 	cfgs := []cuckooCfg{
-		{n: 4, b: 2, fpl: 3, retries: 10},
-		{n: 8, b: 2, fpl: 3, retries: 10},
+		{n: 2, b: 4, fpl: 3, retries: 10},
 		{n: 4, b: 4, fpl: 3, retries: 10},
-		{n: 4, b: 2, fpl: 4, retries: 10},
-		{n: 4, b: 2, fpl: 3, retries: 11},
+		{n: 2, b: 8, fpl: 3, retries: 10},
+		{n: 2, b: 4, fpl: 4, retries: 10},
+		{n: 2, b: 4, fpl: 3, retries: 11},
 	}
 	return eqKind{
 		name: name, redis: redis, nparams: 4,
@@ -405,6 +405,8 @@ func suiteEquals(c *Ctx) {
 			equalsKind(c, k)
 		}
 	}
+	equalsCuckooHoles(c, false)
+	equalsCuckooHoles(c, true)
 }
 
 func randHist(c *Ctx) []int {
@@ -424,49 +426,7 @@ func equalsKind(c *Ctx, k eqKind) {
 		return
 	}
 	k.feed(c, a, hist)
-	check := func(rel string, b interface{}) {
-		c.rep.Cases++
-		c.op("Equals." + k.name)
-		replay := map[string]interface{}{"kind": k.name, "relation": rel, "history": hist}
-		sa, e1 := k.absStr(a)
-		sb, e2 := k.absStr(b)
-		if e1 != nil || e2 != nil {
-			c.fail([]string{"C17"}, k.name+"-export", fmt.Sprintf("%v %v", e1, e2), replay)
-			return
-		}
-		replay["a"], replay["b"] = sa, sb
-		want := sa == sb
-		var ab, ba bool
-		var eab, eba error
-		r1 := safely(func() { ab, eab = k.equals(a, b) })
-		r2 := safely(func() { ba, eba = k.equals(b, a) })
-		res := "0"
-		if r1.panicked {
-			res = "panic"
-		} else if ab {
-			res = "1"
-		}
-		aa, _ := k.eqArgs(a)
-		bb, _ := k.eqArgs(b)
-		c.emit("eq.%s %s %s %s", k.name, aa, bb, res)
-		if r1.panicked || r2.panicked {
-			c.fail([]string{"C17"}, k.name+"-equals-panic", fmt.Sprintf("%s (%s): Equals panicked: %s %s", k.name, rel, r1.panicVal, r2.panicVal), replay)
-			return
-		}
-		if ab != ba {
-			c.fail([]string{"C17"}, k.name+"-equals-asymmetric", fmt.Sprintf("%s (%s): Equals(a,b)=%v but Equals(b,a)=%v", k.name, rel, ab, ba), replay)
-		}
-		if ab != want {
-			c.fail([]string{"C17"}, k.name+"-equals-wrong", fmt.Sprintf("%s (%s): Equals=%v (err %v/%v) but parameters+payload identical=%v", k.name, rel, ab, eab, eba, want), replay)
-		}
-		if ab && (eab != nil) {
-			c.fail([]string{"C17"}, k.name+"-equals-true-with-error", fmt.Sprintf("%s (%s): Equals true with error %v", k.name, rel, eab), replay)
-		}
-		c.branch(rel + "=" + res)
-		if !want && len(hist) > 0 {
-			c.nontrivial(k.name + rel + fmt.Sprint(hist))
-		}
-	}
+	check := func(rel string, b interface{}) { eqCheck(c, k, a, b, rel, hist) }
 	// identical history
 	b := k.build(c, 0)
 	k.feed(c, b, hist)
@@ -520,4 +480,88 @@ func equalsKind(c *Ctx, k eqKind) {
 		a = a0
 	}
 	c.sample(map[string]interface{}{"kind": k.name, "history": hist})
+}
+
+func eqCheck(c *Ctx, k eqKind, a, b interface{}, rel string, hist []int) {
+	c.rep.Cases++
+	c.op("Equals." + k.name)
+	replay := map[string]interface{}{"kind": k.name, "relation": rel, "history": hist}
+	sa, e1 := k.absStr(a)
+	sb, e2 := k.absStr(b)
+	if e1 != nil || e2 != nil {
+		c.fail([]string{"C17"}, k.name+"-export", fmt.Sprintf("%v %v", e1, e2), replay)
+		return
+	}
+	replay["a"], replay["b"] = sa, sb
+	want := sa == sb
+	var ab, ba bool
+	var eab, eba error
+	r1 := safely(func() { ab, eab = k.equals(a, b) })
+	r2 := safely(func() { ba, eba = k.equals(b, a) })
+	res := "0"
+	if r1.panicked {
+		res = "panic"
+	} else if ab {
+		res = "1"
+	}
+	aa, _ := k.eqArgs(a)
+	bb, _ := k.eqArgs(b)
+	c.emit("eq.%s %s %s %s", k.name, aa, bb, res)
+	if r1.panicked || r2.panicked {
+		c.fail([]string{"C17"}, k.name+"-equals-panic", fmt.Sprintf("%s (%s): Equals panicked: %s %s", k.name, rel, r1.panicVal, r2.panicVal), replay)
+		return
+	}
+	if ab != ba {
+		c.fail([]string{"C17"}, k.name+"-equals-asymmetric", fmt.Sprintf("%s (%s): Equals(a,b)=%v but Equals(b,a)=%v", k.name, rel, ab, ba), replay)
+	}
+	if ab != want {
+		c.fail([]string{"C17"}, k.name+"-equals-wrong", fmt.Sprintf("%s (%s): Equals=%v (err %v/%v) but parameters+payload identical=%v", k.name, rel, ab, eab, eba, want), replay)
+	}
+	if ab && (eab != nil) {
+		c.fail([]string{"C17"}, k.name+"-equals-true-with-error", fmt.Sprintf("%s (%s): Equals true with error %v", k.name, rel, eab), replay)
+	}
+	c.branch(rel + "=" + res)
+	if !want && len(hist) > 0 {
+		c.nontrivial(k.name + rel + fmt.Sprint(hist))
+	}
+}
+
+// equalsCuckooHoles: buckets with removed entries in front of live ones (crafted through Import):
+// two filters that differ only in a slot at an index >= the bucket's occupancy.
+func equalsCuckooHoles(c *Ctx, redis bool) {
+	k := eqCuckoo(redis)
+	mkDoc := func(slot2 string, where int) []byte {
+		elems := [][]string{{"", "123", "456", ""}, {"", "", "", ""}}
+		lens := []int{2, 0}
+		switch where {
+		case 1:
+			elems = [][]string{{"", "", "", "789"}, {"", "", "", ""}}
+			lens = []int{1, 0}
+		case 2:
+			elems = [][]string{{"", "", "", ""}, {"", "", "555", "456"}}
+			lens = []int{0, 2}
+		}
+		for bi := range elems {
+			for si := range elems[bi] {
+				if elems[bi][si] == "456" || elems[bi][si] == "789" {
+					elems[bi][si] = slot2
+				}
+			}
+		}
+		var bs []string
+		for bi := range elems {
+			bs = append(bs, fmt.Sprintf(`{"s":4,"l":%d,"e":["%s"],"k":""}`, lens[bi], strings.Join(elems[bi], `","`)))
+		}
+		return []byte(fmt.Sprintf(`{"s":2,"bs":4,"fpl":3,"l":%d,"r":10,"b":[%s],"k":"","mk":""}`, lens[0]+lens[1], strings.Join(bs, ",")))
+	}
+	for where := 0; where < 3; where++ {
+		a, e1 := k.imp(c, mkDoc("456", where))
+		b, e2 := k.imp(c, mkDoc("457", where))
+		a2, e3 := k.imp(c, mkDoc("456", where))
+		if e1 != nil || e2 != nil || e3 != nil || a == nil || b == nil || a2 == nil {
+			continue
+		}
+		eqCheck(c, k, a, b, fmt.Sprintf("holes-differ-%d", where), nil)
+		eqCheck(c, k, a, a2, fmt.Sprintf("holes-same-%d", where), nil)
+	}
 }
